@@ -1,4 +1,5 @@
 import Mieru.Proofs.Close
+import Mieru.Proofs.CloseAccept
 import Mieru.Proofs.StreamPrefix
 import Mieru.Gen.Facts
 /-!
@@ -75,7 +76,7 @@ theorem udp_nothing_sent_after_close {E : Env} {s t : St} (st : Step E s t) (hw 
 theorem udp_close_partial {s : St} (h : Reach assumed s) (he : s.eof = true) : s.readLog = s.a.segs := by
   have inv := reach_cinv h
   obtain ⟨hc, hp⟩ := inv.eofI he
-  have hn := inv.o1 rfl rfl hc
+  have hn := inv.o1 rfl rfl rfl hc
   unfold St.readLog
   rw [hp, List.take_length, inv.arq.deliv, hn, List.take_length]
 
@@ -116,7 +117,7 @@ theorem udp_close_counterexample :
     wait of `closeWithError` expires while data is still queued, the close request is written out
     directly and the queue is discarded. -/
 theorem udp_close_wait_expiry_counterexample :
-    ∃ s, Reach ⟨true, false⟩ s ∧ s.eof = true ∧ s.readLog = [7] ∧ s.a.segs = [7, 8] ∧ s.a.sent = [⟨0, 7⟩] := by
+    ∃ s, Reach ⟨true, false, true⟩ s ∧ s.eof = true ∧ s.readLog = [7] ∧ s.a.segs = [7, 8] ∧ s.a.sent = [⟨0, 7⟩] := by
   let a2 : Arq.St := { Arq.init with segs := [7, 8] }
   let s2 : St := { init with a := a2 }
   let a3 : Arq.St := { a2 with qLo := 1, netData := [⟨0, 7⟩], sent := [⟨0, 7⟩] }
@@ -124,191 +125,111 @@ theorem udp_close_wait_expiry_counterexample :
   let s4 : St := { s3 with closeReq := true }
   let s5 : St := { s4 with closeSent := true, netClose := 1 }
   let s6 : St := { s5 with wClosed := true }
-  have r1 : Reach ⟨true, false⟩ { init with a := { Arq.init with segs := [7] } } :=
+  have r1 : Reach ⟨true, false, true⟩ { init with a := { Arq.init with segs := [7] } } :=
     Reach.step Reach.init (Step.write init 7 rfl)
-  have r2 : Reach ⟨true, false⟩ s2 := Reach.step r1 (Step.write _ 8 rfl)
-  have r3 : Reach ⟨true, false⟩ s3 := Reach.step r2 (Step.sendNew s2 7 rfl (by decide))
-  have r4 : Reach ⟨true, false⟩ s4 := Reach.step r3 (Step.closeCall s3 rfl)
-  have r5 : Reach ⟨true, false⟩ s5 := Reach.step r4 (Step.forceClose s4 rfl rfl rfl)
-  have r6 : Reach ⟨true, false⟩ s6 := Reach.step r5 (Step.discard s5 rfl)
+  have r2 : Reach ⟨true, false, true⟩ s2 := Reach.step r1 (Step.write _ 8 rfl)
+  have r3 : Reach ⟨true, false, true⟩ s3 := Reach.step r2 (Step.sendNew s2 7 rfl (by decide))
+  have r4 : Reach ⟨true, false, true⟩ s4 := Reach.step r3 (Step.closeCall s3 rfl)
+  have r5 : Reach ⟨true, false, true⟩ s5 := Reach.step r4 (Step.forceClose s4 rfl rfl rfl)
+  have r6 : Reach ⟨true, false, true⟩ s6 := Reach.step r5 (Step.discard s5 rfl)
   have r7 := Reach.step r6 (Step.recvData s6 ⟨0, 7⟩ (by decide))
   have r8 := Reach.step r7 (Step.recvClose _ (by decide) (by intro _ j hj; revert j; decide))
   have r9 := Reach.step r8 (Step.read _ (by decide))
   have r10 := Reach.step r9 (Step.readEOF _ (by decide) (by decide))
   exact ⟨_, r10, by decide, by decide, by decide, by decide⟩
 
-/-- Soundness of the correspondence (safety part): every history the executable acceptor accepts
-    leaves the model in a state where what the reader has read is a prefix of what was written and an
-    EOF was reported only on a closed session with its in-order queue drained. -/
-theorem accepted_history_reader_sound (es : List Ev) (c : Acc) (h : acceptAll {s := init} es = some c) :
-    c.s.a.delivered = c.s.a.segs.take c.s.a.nextRecv ∧
-    (c.s.eof = true → c.s.rClosed = true ∧ c.s.readPos = c.s.a.delivered.length) := by
-  suffices H : ∀ (es : List Ev) (c0 c : Acc), Arq.Inv c0.s.a →
-      (c0.s.eof = true → c0.s.rClosed = true ∧ c0.s.readPos = c0.s.a.delivered.length) →
-      acceptAll c0 es = some c →
-      Arq.Inv c.s.a ∧ (c.s.eof = true → c.s.rClosed = true ∧ c.s.readPos = c.s.a.delivered.length) by
-    obtain ⟨i, e⟩ := H es {s := init} c Arq.inv_init (by simp [init]) h
-    exact ⟨i.deliv, e⟩
-  intro es
-  induction es with
-  | nil => intro c0 c hi he h; simp [acceptAll] at h; subst h; exact ⟨hi, he⟩
-  | cons e es ih =>
-    intro c0 c hi he h
-    simp only [acceptAll] at h
-    split at h
-    · simp at h
-    · rename_i c1 hc1
-      refine ih c1 c ?_ ?_ h
-      · -- the Arq part keeps its invariant
-        cases e with
-        | arq ae =>
-          cases ae with
-          | write p =>
-            simp only [accept] at hc1
-            split at hc1
-            · simp at hc1
-            · simp only [Option.some.injEq] at hc1; subst hc1
-              exact Arq.accept_inv (.write p) hi (by simp [Arq.accept])
-          | send k p =>
-            simp only [accept] at hc1
-            split at hc1
-            · simp at hc1
-            · split at hc1
-              · simp at hc1
-              · rename_i a' ha'
-                simp only [Option.some.injEq] at hc1; subst hc1
-                exact Arq.accept_inv _ hi ha'
-          | deliver k p =>
-            simp only [accept] at hc1
-            split at hc1
-            · rename_i hmem
-              split at hc1
-              · simp only [Option.some.injEq] at hc1; subst hc1; exact hi
-              · simp only [Option.some.injEq] at hc1; subst hc1
-                exact Arq.accept_inv (.deliver k p) hi (by simp [Arq.accept, hmem])
-            · simp at hc1
-          | ack a =>
-            simp only [accept] at hc1
-            split at hc1
-            · simp at hc1
-            · rename_i a' ha'
-              simp only [Option.some.injEq] at hc1; subst hc1
-              exact Arq.accept_inv _ hi ha'
-          | ackIn a =>
-            simp only [accept] at hc1
-            split at hc1
-            · simp at hc1
-            · rename_i a' ha'
-              simp only [Option.some.injEq] at hc1; subst hc1
-              exact Arq.accept_inv _ hi ha'
-        | closeCall => simp only [accept] at hc1; split at hc1 <;> simp at hc1; subst hc1; exact hi
-        | closeSend =>
-          simp only [accept] at hc1
-          split at hc1
-          · simp at hc1
-          · split at hc1
-            · simp at hc1; subst hc1; exact hi
-            · split at hc1 <;> (simp at hc1; subst hc1; exact hi)
-        | closeRet =>
-          simp only [accept] at hc1
-          split at hc1
-          · simp at hc1
-          · split at hc1 <;> (simp at hc1; subst hc1; exact hi)
-        | closeDeliver => simp only [accept] at hc1; split at hc1 <;> simp at hc1; subst hc1; exact hi
-        | readAll => simp only [accept, Option.some.injEq] at hc1; subst hc1; exact hi
-        | readEOF => simp only [accept] at hc1; split at hc1 <;> simp at hc1; subst hc1; exact hi
-      · -- EOF is reported only on a closed, drained session, and stays that way
-        cases e with
-        | arq ae =>
-          cases ae with
-          | write p =>
-            simp only [accept] at hc1
-            split at hc1
-            · simp at hc1
-            · simp only [Option.some.injEq] at hc1; subst hc1; exact he
-          | send k p =>
-            simp only [accept] at hc1
-            split at hc1
-            · simp at hc1
-            · split at hc1
-              · simp at hc1
-              · rename_i a' ha'
-                simp only [Option.some.injEq] at hc1; subst hc1
-                have hd : a'.delivered = c0.s.a.delivered := by
-                  simp only [Arq.accept] at ha'
-                  split at ha'
-                  · simp at ha'
-                  · split at ha'
-                    · simp at ha'; subst ha'; rfl
-                    · split at ha'
-                      · simp at ha'; subst ha'; rfl
-                      · simp at ha'
-                simp only [hd]; exact he
-          | deliver k p =>
-            simp only [accept] at hc1
-            split at hc1
-            · split at hc1
-              · simp only [Option.some.injEq] at hc1; subst hc1; exact he
-              · rename_i hr
-                simp only [Option.some.injEq] at hc1; subst hc1
-                intro hE
-                exact absurd (he hE).1 hr
-            · simp at hc1
-          | ack a =>
-            simp only [accept] at hc1
-            split at hc1
-            · simp at hc1
-            · rename_i a' ha'
-              simp only [Option.some.injEq] at hc1; subst hc1
-              have hd : a'.delivered = c0.s.a.delivered := by
-                simp only [Arq.accept] at ha'
-                split at ha'
-                · simp at ha'; subst ha'; rfl
-                · simp at ha'
-              simp only [hd]; exact he
-          | ackIn a =>
-            simp only [accept] at hc1
-            split at hc1
-            · simp at hc1
-            · rename_i a' ha'
-              simp only [Option.some.injEq] at hc1; subst hc1
-              have hd : a'.delivered = c0.s.a.delivered := by
-                simp only [Arq.accept] at ha'
-                split at ha'
-                · simp at ha'; subst ha'; rfl
-                · simp at ha'
-              simp only [hd]; exact he
-        | closeCall => simp only [accept] at hc1; split at hc1 <;> simp at hc1; subst hc1; exact he
-        | closeSend =>
-          simp only [accept] at hc1
-          split at hc1
-          · simp at hc1
-          · split at hc1
-            · simp at hc1; subst hc1; exact he
-            · split at hc1 <;> (simp at hc1; subst hc1; exact he)
-        | closeRet =>
-          simp only [accept] at hc1
-          split at hc1
-          · simp at hc1
-          · split at hc1 <;> (simp at hc1; subst hc1; exact he)
-        | closeDeliver =>
-          simp only [accept] at hc1
-          split at hc1 <;> simp at hc1
-          subst hc1
-          intro hE; exact ⟨rfl, (he hE).2⟩
-        | readAll =>
-          simp only [accept, Option.some.injEq] at hc1; subst hc1
-          intro hE
-          have := he hE
-          exact ⟨this.1, by simp only; rw [this.2]; simp⟩
-        | readEOF =>
-          simp only [accept] at hc1
-          split at hc1 <;> simp at hc1
-          rename_i hg
-          subst hc1
-          intro _
-          simp only [Bool.and_eq_true, beq_iff_eq] at hg
-          exact hg
+/-- A third way, inside `ordered` AND `patient` (the network never hands a close request to the reader
+    at all, the writer's wait ends properly): the second data datagram and the close request are
+    lost, the writer's send state is gone, and the reader's session — which hears nothing any more —
+    is closed locally (on the packet transport after `idleSessionTimeout` = 60 s by
+    `cleanSessions → RemoveSession → s.Close()`). `Read` hands out the one segment it has and then
+    reports a clean EOF. This is why `udp_close_partial` needs its third assumption `kept`. -/
+theorem udp_close_idle_timeout_counterexample :
+    ∃ s, Reach ⟨true, true, false⟩ s ∧ s.eof = true ∧ s.readLog = [7] ∧ s.a.segs = [7, 8] ∧ s.readLog ≠ s.a.segs ∧
+      s.netClose = 0 ∧ s.wClosed = true := by
+  let a2 : Arq.St := { Arq.init with segs := [7, 8] }
+  let s2 : St := { init with a := a2 }
+  let a3 : Arq.St := { a2 with qLo := 1, netData := [⟨0, 7⟩], sent := [⟨0, 7⟩] }
+  let a4 : Arq.St := { a3 with qLo := 2, netData := [⟨1, 8⟩, ⟨0, 7⟩], sent := [⟨1, 8⟩, ⟨0, 7⟩] }
+  let s4 : St := { s2 with a := a4 }
+  let s5 : St := { s4 with closeReq := true }
+  let s6 : St := { s5 with closeSent := true, netClose := 1 }
+  let s7 : St := { s6 with wClosed := true }
+  let s8 : St := { s7 with a := { a4 with netData := [⟨0, 7⟩] } }
+  let s9 : St := { s8 with netClose := 0 }
+  have r1 : Reach ⟨true, true, false⟩ { init with a := { Arq.init with segs := [7] } } :=
+    Reach.step Reach.init (Step.write init 7 rfl)
+  have r2 : Reach ⟨true, true, false⟩ s2 := Reach.step r1 (Step.write _ 8 rfl)
+  have r3 : Reach ⟨true, true, false⟩ { s2 with a := a3 } := Reach.step r2 (Step.sendNew s2 7 rfl (by decide))
+  have r4 : Reach ⟨true, true, false⟩ s4 := Reach.step r3 (Step.sendNew _ 8 rfl (by decide))
+  have r5 : Reach ⟨true, true, false⟩ s5 := Reach.step r4 (Step.closeCall s4 rfl)
+  have r6 : Reach ⟨true, true, false⟩ s6 := Reach.step r5 (Step.sendClose s5 rfl rfl (by decide))
+  have r7 : Reach ⟨true, true, false⟩ s7 := Reach.step r6 (Step.discard s6 rfl)
+  have r8 : Reach ⟨true, true, false⟩ s8 := Reach.step r7 (Step.dropData s7 ⟨1, 8⟩)
+  have r9 : Reach ⟨true, true, false⟩ s9 := Reach.step r8 (Step.dropClose s8 (by decide))
+  have r10 := Reach.step r9 (Step.recvData s9 ⟨0, 7⟩ (by decide))
+  have r11 := Reach.step r10 (Step.localClose _ rfl)
+  have r12 := Reach.step r11 (Step.read _ (by decide))
+  have r13 := Reach.step r12 (Step.readEOF _ (by decide) (by decide))
+  exact ⟨_, r13, by decide, by decide, by decide, by decide, by decide, by decide⟩
+
+/-- Soundness of the correspondence for the HEADLINE statement: every history the executable acceptor
+    accepts leaves the model in a state where what the reader has read is a prefix of what was
+    written, an EOF was reported only on a closed session with its in-order queue drained, and — if the
+    acceptor's three flags say the run stayed inside the assumptions (every close delivery found all
+    transmitted data handed over; no forced close request, no `Close` returning before its request was
+    out; the reader's session closed by nothing but a delivered close request) — an EOF means the
+    reader has read EVERYTHING that was written. The harness's check
+    `C03/corr/udp-partial-eof-inside-assumptions` is therefore a consequence of this theorem and of
+    the acceptor accepting the history, not a convention. -/
+theorem accepted_history_sound (es : List Ev) (c : Acc) (h : acceptAll {s := init} es = some c) :
+    c.s.readLog = c.s.a.segs.take c.s.readPos ∧
+    (c.s.eof = true → c.s.rClosed = true ∧ c.s.readLog = c.s.a.delivered) ∧
+    (c.ordered = true → c.patient = true → c.kept = true → c.s.eof = true → c.s.readLog = c.s.a.segs) := by
+  have inv := acceptAll_ainv es ainv_init h
+  have hpre : c.s.readLog = c.s.a.segs.take c.s.readPos := by
+    unfold St.readLog
+    rw [inv.arq.deliv, List.take_take]
+    congr 1
+    have h1 := inv.readLe
+    rw [inv.arq.deliv, List.length_take] at h1
+    omega
+  refine ⟨hpre, ?_, ?_⟩
+  · intro he
+    obtain ⟨hc, hp⟩ := inv.eofI he
+    exact ⟨hc, by unfold St.readLog; rw [hp, List.take_length]⟩
+  · intro ho hp hk he
+    obtain ⟨hc, hpos⟩ := inv.eofI he
+    have hn := inv.o1 hp ho hk hc
+    unfold St.readLog
+    rw [hpos, List.take_length, inv.arq.deliv, hn, List.take_length]
+
+/-- What the driver reports as "the model predicts a strict prefix followed by EOF" (`navail < total`
+    after an accepted `readAll, readEOF`) is impossible inside the three assumptions. -/
+theorem accepted_no_partial_eof_inside_assumptions (es : List Ev) (c : Acc)
+    (h : acceptAll {s := init} (es ++ [.readAll, .readEOF]) = some c)
+    (ho : c.ordered = true) (hp : c.patient = true) (hk : c.kept = true) :
+    c.s.eof = true ∧ ¬ (c.s.a.delivered.length < c.s.a.segs.length) := by
+  have inv := acceptAll_ainv _ ainv_init h
+  have he : c.s.eof = true := by
+    rw [acceptAll_append] at h
+    cases h1 : acceptAll {s := init} es with
+    | none => rw [h1] at h; simp at h
+    | some c1 =>
+      rw [h1] at h
+      simp only [Option.bind_some, acceptAll, accept] at h
+      split at h
+      · simp at h
+      · rename_i c2 hc2
+        split at hc2
+        · simp only [Option.some.injEq] at hc2; subst hc2
+          simp only [Option.some.injEq] at h; subst h; rfl
+        · simp at hc2
+  refine ⟨he, ?_⟩
+  obtain ⟨hc, _⟩ := inv.eofI he
+  have hn := inv.o1 hp ho hk hc
+  rw [inv.arq.deliv, List.length_take, hn]
+  omega
 
 /-! ## Stream transport -/
 
